@@ -9,3 +9,99 @@ import (
 
 // VerifEngine exposes the key-value engine under a RockDB (physical dumps / state loading).
 func VerifEngine(r *RockDB) engine.KVEngine { return r.rockEng }
+
+// ---- key codec seams (C12) --------------------------------------------------------
+
+// VerifVerKey: the versioned collection key used under the wait_compact policy.
+func VerifVerKey(key []byte, ver int64) []byte {
+	return encodeVerKey(&headerMetaValue{ValueVersion: ver}, key)
+}
+
+func VerifDecodeVerKey(b []byte) ([]byte, int64, error) { return decodeVerKey(b) }
+
+// VerifSubKey encodes the stored key of one element of a collection.
+// typ: "hash" "set" "zset" (sub = field/member), "list" (seq), "zscore" (sub = member, score),
+// "bitmap" (seq = index).
+func VerifSubKey(typ string, table, key, sub []byte, seq int64, score float64) []byte {
+	switch typ {
+	case "hash":
+		return hEncodeHashKey(table, key, sub)
+	case "set":
+		return sEncodeSetKey(table, key, sub)
+	case "zset":
+		return zEncodeSetKey(table, key, sub)
+	case "zscore":
+		return zEncodeScoreKey(false, false, table, key, sub, score)
+	case "list":
+		return lEncodeListKey(table, key, seq)
+	case "bitmap":
+		b, _ := encodeBitmapKey(table, key, seq)
+		return b
+	}
+	panic("unknown type " + typ)
+}
+
+// VerifDecodeSubKey decodes what VerifSubKey produced.
+func VerifDecodeSubKey(typ string, ek []byte) (table, key, sub []byte, seq int64, score float64, err error) {
+	switch typ {
+	case "hash":
+		table, key, sub, err = hDecodeHashKey(ek)
+	case "set":
+		table, key, sub, err = sDecodeSetKey(ek)
+	case "zset":
+		table, key, sub, err = zDecodeSetKey(ek)
+	case "zscore":
+		table, key, sub, score, err = zDecodeScoreKey(ek)
+	case "list":
+		table, key, seq, err = lDecodeListKey(ek)
+	case "bitmap":
+		table, key, seq, err = decodeBitmapKey(ek)
+	}
+	return
+}
+
+// VerifCollRange: the [start, stop) range a clear / enumeration of one collection uses.
+func VerifCollRange(typ string, table, key []byte) (start, stop []byte) {
+	switch typ {
+	case "hash":
+		return hEncodeStartKey(table, key), hEncodeStopKey(table, key)
+	case "set":
+		return sEncodeStartKey(table, key), sEncodeStopKey(table, key)
+	case "zset":
+		return zEncodeStartSetKey(table, key), zEncodeStopSetKey(table, key)
+	case "zscore":
+		return zEncodeStartKey(table, key), zEncodeStopKey(table, key)
+	case "list":
+		return lEncodeListKey(table, key, listMinSeq), lEncodeListKey(table, key, listMaxSeq)
+	case "bitmap":
+		s, _ := encodeBitmapStartKey(table, key, 0)
+		e, _ := encodeBitmapStopKey(table, key)
+		return s, e
+	}
+	panic("unknown type " + typ)
+}
+
+var verifTypeByte = map[string]byte{"kv": KVType, "hash": HashType, "set": SetType, "zset": ZSetType, "zscore": ZScoreType, "list": ListType, "bitmap": BitmapType}
+
+// VerifTableRange: the [start, end) range whole-table operations use for one data type.
+func VerifTableRange(typ string, table []byte) (start, end []byte) {
+	dt := verifTypeByte[typ]
+	return encodeDataTableStart(dt, table), encodeDataTableEnd(dt, table)
+}
+
+// VerifKVKey: stored key of a kv value ("table:key" given as the full redis key).
+func VerifKVKey(fullKey []byte) ([]byte, []byte, error) {
+	t, k, err := convertRedisKeyToDBKVKey(fullKey)
+	return t, k, err
+}
+
+func VerifDecodeKVKey(ek []byte) ([]byte, error) { return decodeKVKey(ek) }
+
+// VerifMetaKey: the size/meta key of a collection (full redis key "table:key").
+func VerifMetaKey(typ string, fullKey []byte) []byte {
+	k, err := encodeMetaKey(verifTypeByte[typ], fullKey)
+	if err != nil {
+		panic(err)
+	}
+	return k
+}
